@@ -30,6 +30,14 @@ def Arr.append {α : Type} (a : Arr α) (x : α) : Arr α :=
 /-- `array_init_copy`: `array_init(dst, src->size, src->used)` + `memcpy` of the used part -/
 def Arr.initCopy {α : Type} (a : Arr α) : Arr α := ⟨a.data.length, a.data⟩
 
+/-- capacity after `n` more `array_append`s to an array of capacity `c` that holds `len` elements -/
+def capAfter : Nat → Nat → Nat → Nat
+  | 0, c, _ => c
+  | n + 1, c, len => capAfter n (if len = c then (if c = 0 then 128 else c * 2) else c) (len + 1)
+
+/-- `xs.length` calls of `array_append` in one step (`Sqfs.Obj.Kinds.Arr.appendAll_eq_foldl`: the same array) -/
+def Arr.appendAll {α : Type} (a : Arr α) (xs : List α) : Arr α := ⟨capAfter xs.length a.count a.data.length, a.data ++ xs⟩
+
 /-- `array_set` -/
 def Arr.set {α : Type} (a : Arr α) (i : Nat) (x : α) : Option (Arr α) :=
   if i < a.data.length then some ⟨a.count, a.data.set i x⟩ else none
@@ -43,18 +51,26 @@ inductive IdOp where
   | get (idx : Nat)     -- `sqfs_id_table_index_to_id`
   deriving Repr, DecidableEq
 
+/-- `if (tbl->ids.used >= 0xFFFF) return SQFS_ERROR_OVERFLOW;` (`sqfs_id_table_id_to_index`): the table never holds more
+than 0xFFFF ids -/
+def idLimit : Nat := 0xFFFF
+
 /-- answer = (return value, out parameter; 0 when the call failed) -/
 def idStep (t : IdTable) : IdOp → IdTable × (Int × Nat)
   | .add id =>
     match t.data.idxOf? id with
     | some i => (t, (0, i))
     | none =>
-      if t.data.length = 0x10000 then (t, (c19ErrOverflow, 0))
+      if t.data.length ≥ idLimit then (t, (c19ErrOverflow, 0))
       else (t.append id, (0, t.data.length))
   | .get idx =>
     match t.data[idx]? with
     | some id => (t, (0, id))
     | none => (t, (c19ErrOutOfBounds, 0))
+
+/-- the table after the ids `0 … n-1` were added to an empty table, one `sqfs_id_table_id_to_index` each
+(`Sqfs.Obj.Kinds.idFill_eq_adds`); the harness builds the same state with `n` calls of `array_append` -/
+def idFill (n : Nat) : IdTable := (Arr.empty : IdTable).appendAll (List.range n)
 
 /-- `id_table_copy` (state part) -/
 def idCopy (t : IdTable) : IdTable := t.initCopy
@@ -129,6 +145,9 @@ def tblStep (w : TblWorld) (line : String) : TblWorld × String :=
       match ((w.objs[i]?).join : Option Tbl), op, args.map String.toNat? with
       | some (.id tb), "add", [some id] =>
         let (tb', (rc, out)) := idStep tb (.add id); (⟨w.objs.set i (some (.id tb'))⟩, s!"add {rc} {out}")
+      | some (.id tb), "fill", [some n] =>
+        -- scenario set-up (fresh table only): ids 0 … n-1, as `n` adds would leave it; answers like the harness
+        if tb.data.isEmpty ∧ n ≤ idLimit then (⟨w.objs.set i (some (.id (idFill n)))⟩, s!"fill {n}") else (w, "bad-op")
       | some (.id tb), "get", [some idx] =>
         let (tb', (rc, out)) := idStep tb (.get idx); (⟨w.objs.set i (some (.id tb'))⟩, s!"get {rc} {out}")
       | some (.frag tb), "append", [some l, some s] =>
